@@ -530,7 +530,7 @@ func init() {
 			"the receiver itself or another container for same-type parameters; every iterator returned is driven through a random walk (Index/Key/Value/Node read only after a successful move), every node, entry and derived container returned is exercised through its argument-free methods; " +
 			"finally the container is cleared and every method is called once more. Each call runs under the panic monitor, the per-call fstat monitor on fd 1/2, the comparator/step budget and the per-case watchdog. Every case is non-trivial; distinct = distinct hash of the call list.",
 		OutputIsViolation: true,
-		CaseBudget:        func(tier string) time.Duration { return 30 * time.Second },
+		CaseBudget:        func(tier string) time.Duration { return 60 * time.Second },
 		Floors: func(tier string, m map[string]int64) []string {
 			var missing []string
 			n := 0
